@@ -380,6 +380,14 @@ func c19File(c *Ctx, k c19Case) (nontrivial bool) {
 				c.Violate(api, "malformed-file-yields-error", shape, cas, nil, detail(fmt.Sprintf("a stray '}' at top level after document %d: expected an error together with %d Maps", whole, whole)))
 			}
 		}
+		if k.Format == "json" && k.Byte != '{' && k.Byte != '}' && c19TopLevel(content, k.Offset) && strings.ContainsRune(" \t\r\n", rune(content[k.Offset])) {
+			// a byte of the white space between two documents was overwritten; no document was touched. The readers
+			// scan for the next '{' and skip what lies between documents - then every document is still read; or
+			// they report the junk. Losing the documents behind it without an error is neither.
+			if err == nil && len(got) != len(texts) {
+				c.Violate(api, "documents-behind-junk-lost", shape, cas, nil, detail(fmt.Sprintf("white space between documents was overwritten with %q: expected all %d Maps, or an error", k.Byte, len(texts))))
+			}
+		}
 		if k.Format == "xml" {
 			docs, failed := refXmlSequence(data)
 			if failed != (err != nil) || len(docs) != len(got) {
